@@ -136,7 +136,7 @@ SelFold(m, o, rk, ns, loads) ==
 (* -- actions ------------------------------------------------------------------ *)
 \* With EmitGraph every transition is printed as one JSON line
 \*   {s: state before, a: operation, out: observable outcome, t: state after}
-\* (states projected by ViewRec: without `ret` and the ghost).  Run with VIEW View the
+\* (states projected by ViewRec: without the ghost).  Run with VIEW View the
 \* printed lines are exactly the edges of the reachable state graph; the replay driver
 \* walks the real Environment along every one of them.
 ViewRec == [k |-> kind, ar |-> autoReload, src |-> src, m |-> mapping, o |-> order]
@@ -278,6 +278,6 @@ C25_SelectFindsSomething ==
 \* the freshness flag is only ever cleared for loaders whose check compares a stamp
 C25_FreshFlag == \A n \in Present : kind \notin StampKinds => mapping[n].fresh
 
-\* the graph exported for the replay ignores the ghost and the last outcome (edges carry it)
+\* the graph exported for the replay ignores the ghost
 View == ViewRec
 =============================================================================
